@@ -5,6 +5,7 @@ small inputs and compared with the brute-force optimum `oracles.capa_optimum`, w
 `oracles.pen_subset` (best NON-EMPTY subset of components, alpha once, first |J| betas) -- both written from the statement.
 
 Scope
+  seeds  (9 cases): the smallest known inputs for the five defects of DESIGN section 11 rows 7-11, run first
   part A (exhaustive): L2 savings on every X in {0,1,3}^n (p=1, n=2..4; thorough ..5) and every X in {0,2}^(n x 2)
          (n=2..3), every 2<=m<=n, m<=M<=n+1, alpha_c, alpha_p in {0,1,4}, through run_capa.
   part B (seeded random, n ascending so that the first witness of a key is small): n<=9, p<=2, 2<=m<=M<=8, user-defined
@@ -520,6 +521,34 @@ def fingerprint(case):
 TARGET = "skchange/anomaly_detectors/mvcapa.py::run_base_capa"
 
 
+def seed_cases():
+    """Smallest known inputs for the five defects read off the pinned tree (DESIGN section 11, rows 7-11); run first so that
+    each key is reported with its smallest witness.  They are ordinary members of the scope."""
+    l2 = lambda X: {"kind": "l2", "X": X}       # noqa: E731
+    tab = np.zeros((4, 4, 1))
+    for (a, c), v in {(0, 1): 1, (1, 2): 0, (2, 3): 5, (0, 2): 1, (1, 3): 5, (0, 3): 6}.items():   # sub-additive by inspection
+        tab[a, c] = v
+    return [
+        # row 10: point anomaly reported as [1,1) by CAPA.predict; the same input makes MVCAPA.predict raise ValueError
+        {"api": "CAPA", "n": 2, "p": 1, "m": 2, "M": 2, "saving": l2([[0.0], [3.0]]), "pen": {"cscale": 1.0, "pscale": 1.0}},
+        {"api": "MVCAPA", "n": 2, "p": 1, "m": 2, "M": 2, "saving": l2([[0.0], [3.0]]),
+         "pen": {"cpen": "dense", "cscale": 1.0, "ppen": "sparse", "pscale": 1.0}},
+        # row 7: the point anomaly at sample 0 < m-1 is never considered
+        {"api": "run_capa", "n": 2, "p": 1, "m": 2, "M": 2, "saving": l2([[1.0], [0.0]]), "pen": {"ca": 0.0, "pa": 0.0}},
+        # row 9: savings [0,4] of the point at 1, alpha_p = 1: 4-1 = 3 expected, (0-1)+(4-1) = 2 computed
+        {"api": "run_capa", "n": 2, "p": 2, "m": 2, "M": 2, "saving": l2([[0.0, 0.0], [0.0, 2.0]]), "pen": {"ca": 0.0, "pa": 1.0}},
+        # row 9 on a collective anomaly: savings [2,2], alpha_c = 1: 3 expected, 2 computed
+        {"api": "run_capa", "n": 2, "p": 2, "m": 2, "M": 2, "saving": l2([[1.0, 1.0], [1.0, 1.0]]), "pen": {"ca": 1.0, "pa": 6.0}},
+        # row 11: start 0 pruned at end 2, needed at end 3 (table saving), resp. start 1 pruned at end 3, needed at end 4 (L2)
+        {"api": "run_base_capa", "n": 3, "p": 1, "m": 2, "M": 3,
+         "saving": {"kind": "table", "coll": tab.tolist(), "point": [[0.0], [3.0], [0.0]]},
+         "pen": {"ca": 1.0, "cb": [0.0], "pa": 0.0, "pb": [0.0]}},
+        {"api": "run_capa", "n": 4, "p": 1, "m": 2, "M": 3, "saving": l2([[0.0], [3.0], [0.0], [3.0]]), "pen": {"ca": 0.0, "pa": 4.0}},
+        # row 8: starts [0,2] at end 4, the maximiser is start 2, reported start is 0+1
+        {"api": "run_capa", "n": 4, "p": 1, "m": 2, "M": 4, "saving": l2([[1.0], [0.0], [1.0], [1.0]]), "pen": {"ca": 0.0, "pa": 1.0}},
+    ]
+
+
 def exhaustive_cases(tier):
     nmax = 4 if tier == "quick" else 5
     for n in range(2, nmax + 1):
@@ -540,6 +569,9 @@ def run(tier="quick", seed=0, repo="/repo"):
     use_repo(repo)
     rec = Recorder(target=TARGET)
     rng = np.random.default_rng(seed)
+    for case in seed_cases():
+        nt, summ = check_case(rec, jsonable(case))
+        rec.case(fingerprint(jsonable(case)), nt, summ)
     for case in exhaustive_cases(tier):
         nt, summ = check_case(rec, case)
         rec.case(fingerprint(case), nt, summ if nt and rec.evaluations % 997 == 0 else None)
